@@ -26,13 +26,69 @@ Fixpoint all_eq (a b : list obs3) : bool :=
   | _, _ => false
   end.
 
-(* per-step properties: the oracle looks at (eids before, op, observation, eids after) *)
-Definition step_oracle : Type := (N * N) -> op -> obs3 -> sv.
+Definition ost0 : ost :=
+  {| os_eids := (0, 0); os_last_enc := None; os_last_dec := None; os_uuid := zeros 16; os_spec_eid := 0 |}.
 
-Fixpoint steps (f : step_oracle) (pre : N * N) (ops : list op) (xs : list obs3) : list sv :=
+(* how the oracle's memory evolves: a function of the operations and what was observed, not of the property *)
+Definition ost_next (s : ost) (o : op) (x : obs3) : ost :=
+  {| os_eids := snd x;
+     os_last_enc := match o, fst x with
+                    | OEncode _ _ _ _ _, XEnc (Some n) out => Some (o, n, out)
+                    | OEncode _ _ _ _ _, _ => None
+                    | OProcess _ _, _ | OSetEid _ _, _ | OSetUuid _, _ => None   (* the context may have changed *)
+                    | _, _ => os_last_enc s
+                    end;
+     os_last_dec := match o with ODecode p => Some (p, fst x) | _ => os_last_dec s end;
+     os_uuid := match o, fst x with OSetUuid u, XUnit => u | _, _ => os_uuid s end;
+     os_spec_eid := os_spec_eid s |}.
+
+(* the step oracle of each property; the number is the property's (Cnn) *)
+Definition oracle_of (p : N) (ovf : bool) (g : config) (s : ost) (o : op) (x : obs3) : sv :=
+  match p with
+  | 1 => c01_step s o (fst x)
+  | 2 => c02_step s o x
+  | 3 => c03_step o (fst x)
+  | 4 => sv_and (c04_step g s o (fst x)) (c04_oversize s o (fst x))
+  | 5 => c05_step g s o (fst x)
+  | 6 => c06_step s o (fst x)
+  | 7 => c07_step s o (fst x)
+  | 8 => c08_step s o (fst x)
+  | 9 => c09_step o (fst x)
+  | 10 => c10_step ovf g o (fst x)
+  | 11 => c11_step s o (fst x)
+  | 12 => c12_step g o (fst x)
+  | 13 => c13_step g s o x
+  | 14 => c14_step g o (fst x)
+  | 15 => c15_step g s o (fst x)
+  | 16 => c16_step s o (fst x)
+  | 17 => c17_step o (fst x)
+  | 18 => c18_step o (fst x)
+  | 19 => c19_step o (fst x)
+  | _ => sv_triv
+  end.
+
+Fixpoint steps (p : N) (ovf : bool) (g : config) (s : ost) (ops : list op) (xs : list obs3) : list sv :=
   match ops, xs with
-  | o :: ops', x :: xs' => f pre o x :: steps f (snd x) ops' xs'
+  | o :: ops', x :: xs' => oracle_of p ovf g s o x :: steps p ovf g (ost_next s o x) ops' xs'
   | _, _ => []
+  end.
+
+(* the projection compared between implementation and model: for the closed-form properties the oracle's own
+   verdict per step (the theorem says the model's output satisfies the statement, so the two agree on the
+   projected slice exactly when the statement holds of the implementation's output); for the relational
+   properties a coarse view of the observation as well *)
+Definition coarse (p : N) (x : obs3) : N :=
+  match p with
+  | 10 => N.b2n (is_panic_obs (fst x))                                       (* panicked or not *)
+  | 9 | 1 => match fst x with
+             | XDecode (inl (mt, (off, len))) => 1000000 + msg_type_to_u8 mt * 1000 + N.of_nat off
+             | XDecode (inr _) => 1 | XPanic _ => 2 | XBad => 3 | _ => 0 end   (* accepted (type, offset) / rejected / panic *)
+  | 2 | 11 => match fst x with
+              | XProcess (inl (_, Some n)) _ => 10 + N.of_nat n
+              | XProcess (inl (_, None)) _ => 2 | XProcess (inr _) _ => 1
+              | XDecode (inl _) => 3 | XDecode (inr _) => 4 | XPanic _ => 5 | _ => 0 end
+  | 16 => match fst x with XEnc (Some n) _ => 10 + N.of_nat n | XEnc None _ => 1 | XPanic _ => 2 | _ => 0 end
+  | _ => 0
   end.
 
 Definition summarise (full : bool) (fd : nat) (proj : bool) (l : list sv) : verdict :=
@@ -45,20 +101,12 @@ Definition summarise (full : bool) (fd : nat) (proj : bool) (l : list sv) : verd
      v_tags := map s_tag (filter s_nontrivial l);
      v_first_diff := fd |}.
 
-Definition oracle_of (p : N) : step_oracle :=
-  match p with
-  | 3 => fun _ o x => c03_step o (fst x)
-  | _ => fun _ _ _ => sv_triv
-  end.
-
-(* For the closed-form properties the projection is the oracle's own verdict: the theorem says the model's
-   output satisfies the statement, so the implementation agrees with the model on the projected slice
-   exactly when the statement holds of its output. *)
 Definition judge (p : N) (ovf : bool) (g : config) (ops : list op) (impl : list obs3) : verdict :=
   let model := run ovf (ctx_of g) ops in
   let full := all_eq impl model && (length impl =? length ops)%nat in
   let fd := first_diff impl model 0 in
-  let svs := steps (oracle_of p) (0, 0) ops impl in
-  let msvs := steps (oracle_of p) (0, 0) ops model in
-  let proj := list_eqb (map (fun s => N.b2n (s_o s)) svs) (map (fun s => N.b2n (s_o s)) msvs) in
+  let svs := steps p ovf g ost0 ops impl in
+  let msvs := steps p ovf g ost0 ops model in
+  let proj := list_eqb (map (fun s => N.b2n (s_o s)) svs) (map (fun s => N.b2n (s_o s)) msvs)
+              && list_eqb (map (coarse p) impl) (map (coarse p) model) in
   summarise full fd proj svs.
